@@ -17,6 +17,7 @@ import (
 	"github.com/hydraide/hydraide/app/core/hydra/swamp/treasure/msgpackpatch"
 	"github.com/hydraide/hydraide/app/core/hydra/swamp/vigil"
 	"github.com/hydraide/hydraide/app/name"
+	"github.com/hydraide/hydraide/app/verifhook"
 )
 
 const (
@@ -1150,6 +1151,7 @@ func New(name name.Name, closeAfterIdle time.Duration, filesystemSettings *Files
 		go s.startWriteListener()
 	}
 
+	verifhook.Point("swamp.new", verifhook.ID(s))
 	go s.startCloseListener()
 
 	return s
@@ -2285,6 +2287,7 @@ func (s *swamp) Close() {
 	// set closing to 1 immediately to prevent other transactions to be created on the swamp
 	atomic.StoreInt32(&s.closing, 1)
 	s.closeMutex.Unlock()
+	verifhook.Point("swamp.close.begin", verifhook.ID(s))
 
 	// write all treasures to the chroniclerInterface that are waiting for the writer and don't send events to the hydra
 	// because we are closing the swamp and ask the chroniclerInterface to not send file pointers for new files, because,
@@ -2311,6 +2314,7 @@ func (s *swamp) Close() {
 	// az adatokat. Így fontos, hogy a chroniclerInterface minden adatot kiírjon a filerendszerbe, mielőtt a swamp bezáródik
 
 	// close internal routines because we are closing the swamp and we don't need to listen for new events or write ticker
+	verifhook.Point("swamp.cancelling", verifhook.ID(s))
 	s.goRoutineCancelFunction()
 
 	// drop auto-built bucket indexes; they are derived state and a
@@ -2326,7 +2330,9 @@ func (s *swamp) Close() {
 
 // sendClosedEvent sends a signal to the Manager because the swamp is successfully closed itself
 func (s *swamp) sendClosedEvent() {
+	verifhook.Point("swamp.callback", verifhook.ID(s))
 	s.swampCloseCallback(s.name)
+	verifhook.Point("swamp.callback.done", verifhook.ID(s))
 }
 
 // Destroy destroys all treasures in the chroniclerInterface, and all its treasures and stops all goroutines inside the swamp
@@ -2344,6 +2350,7 @@ func (s *swamp) Destroy() {
 	// handing the swamp out, so no new vigils can be started for this swamp
 	// once this store is visible to summoners.
 	atomic.StoreInt32(&s.closing, 1)
+	verifhook.Point("swamp.destroy.marked", verifhook.ID(s))
 
 	// Idempotency guard for concurrent Destroy() (and Close()-then-Destroy())
 	// on the same swamp. Only the first caller performs the teardown; later
@@ -2362,6 +2369,7 @@ func (s *swamp) Destroy() {
 	}
 	s.destroyed = true
 	s.closeMutex.Unlock()
+	verifhook.Point("swamp.destroy.begin", verifhook.ID(s))
 
 	// StopSendingInformation/StopSendingEvents are pure atomic stores; they
 	// do not touch the treasure map, so they are safe to call without s.mu.
@@ -2382,6 +2390,7 @@ func (s *swamp) Destroy() {
 	// release their vigils, and (because closing=1 already gates SummonSwamp)
 	// no new vigils can be started in the meantime.
 	s.Vigil.WaitForActiveVigilsClosed()
+	verifhook.Point("swamp.destroy.drained", verifhook.ID(s))
 
 	slog.Debug("Destroy: vigils closed", "swamp", swampName)
 
@@ -2391,6 +2400,7 @@ func (s *swamp) Destroy() {
 	slog.Debug("Destroy: acquired mutex", "swamp", swampName)
 
 	// stops all goroutines inside the swamp
+	verifhook.Point("swamp.cancelling", verifhook.ID(s))
 	s.goRoutineCancelFunction()
 
 	// destroy the chroniclerInterface
@@ -2590,6 +2600,7 @@ func (s *swamp) DeleteTreasure(key string, shadowDelete bool) error {
 	// destroy the swamp if there is no treasure in it
 	if s.beaconKey.Count() == 0 {
 		// feloldjuk a vigiliát, mert nincs több treasure a swampban és a Destroy megkövetelei a Vigil feloldását
+		verifhook.Point("swamp.autodestroy", verifhook.ID(s), 1)
 		s.CeaseVigil()
 		s.Destroy()
 		return nil
@@ -2628,6 +2639,7 @@ func (s *swamp) CloneAndDeleteExpiredTreasures(howMany int32) ([]treasure.Treasu
 	if remainingCount == 0 {
 		slog.Info("CloneAndDeleteExpiredTreasures: auto-destroying empty swamp",
 			"swamp", s.name.Get())
+		verifhook.Point("swamp.autodestroy", verifhook.ID(s), 2)
 		s.CeaseVigil()
 		s.Destroy()
 	}
@@ -2699,6 +2711,7 @@ func (s *swamp) CloneAndDeleteMatchingTreasures(beaconType BeaconType, order Bea
 
 	// Auto-destroy on empty, mirroring CloneAndDeleteExpiredTreasures.
 	if s.beaconKey.Count() == 0 {
+		verifhook.Point("swamp.autodestroy", verifhook.ID(s), 3)
 		s.CeaseVigil()
 		s.Destroy()
 	}
@@ -2766,6 +2779,7 @@ func (s *swamp) CloneAndDeleteTreasuresByKeys(keys []string) ([]treasure.Treasur
 
 	// destroy the swamp if there is no treasure in it
 	if s.beaconKey.Count() == 0 {
+		verifhook.Point("swamp.autodestroy", verifhook.ID(s), 4)
 		s.CeaseVigil()
 		s.Destroy()
 	}
@@ -3493,6 +3507,7 @@ func (s *swamp) startCloseListener() {
 			// goroutines are finished their work
 			currentTime := time.Now()
 			lastInteractionTime := time.Unix(0, atomic.LoadInt64(&s.lastInteractionTime))
+			verifhook.Point("swamp.idle.read", verifhook.ID(s))
 
 			func() {
 
@@ -3507,12 +3522,14 @@ func (s *swamp) startCloseListener() {
 				// és ezt kjövetően már be is lehet zárni a swampot
 				if atomic.LoadInt32(&s.inMemorySwamp) == 1 {
 					if !s.Vigil.HasActiveVigils() && atomic.LoadInt32(&s.closing) == 0 && currentTime.After(lastInteractionTime.Add(s.closeAfterIdle+closeGapDuration)) {
+						verifhook.Point("swamp.idle.close", verifhook.ID(s))
 						s.Close()
 					}
 				} else {
 					if atomic.LoadInt32(&s.isFilesystemWritingActive) == 0 && !s.Vigil.HasActiveVigils() && atomic.LoadInt32(&s.closing) == 0 && currentTime.After(lastInteractionTime.Add(s.closeAfterIdle+closeGapDuration)) {
 						// a swampot éppp nem írja senki, nincs aktív tranzakció, nem zárjuk éppen le és megfelelünk annak a követelménynek is, hogy
 						// az utoljára történt interakció óta eltelt idő nagyobb legyen mint a closeAfterIdle, így a swamp leállítható biztonságosan
+						verifhook.Point("swamp.idle.close", verifhook.ID(s))
 						s.Close()
 					}
 				}
